@@ -13,6 +13,7 @@ import (
 	"sync"
 	"time"
 
+	"verifengine/smt"
 	"verifengine/solve"
 	"verifengine/vc"
 )
@@ -314,7 +315,63 @@ func cmdCheck(args []string) int {
 				if cover {
 					to = 10 * time.Second
 				}
-				res := solve.Run(fname, to, "")
+				var res solve.Result
+				cases := [][]*smt.Term(nil)
+				if !cover {
+					cases = oo.res.CaseSplits(oo.obl, 2)
+				}
+				if len(cases) > 1 {
+					// race the plain query against a case analysis on the ite conditions
+					type cr struct {
+						idx int
+						r   solve.Result
+					}
+					ch := make(chan cr, len(cases)+1)
+					go func() { ch <- cr{-1, solve.Run(fname, to, "")} }()
+					for ci, cs := range cases {
+						ctext := oo.res.SMTTextWith(oo.obl, cs, true) + "(get-model)\n"
+						cname := strings.TrimSuffix(fname, ".smt2") + fmt.Sprintf(".case%d.smt2", ci)
+						os.WriteFile(cname, []byte(ctext), 0o644)
+						go func(ci int, cname string) { ch <- cr{ci, solve.Run(cname, to, "")} }(ci, cname)
+					}
+					okCases := 0
+					var base *solve.Result
+					total := 0.0
+					done := false
+					for k := 0; k < len(cases)+1 && !done; k++ {
+						c := <-ch
+						total += c.r.Seconds
+						if c.idx < 0 {
+							b := c.r
+							base = &b
+							if b.Status == "unsat" || b.Status == "sat" {
+								res = b
+								done = true
+							}
+							continue
+						}
+						if c.r.Status == "unsat" {
+							okCases++
+							if okCases == len(cases) {
+								res = c.r
+								res.Solver = c.r.Solver + "+cases"
+								res.Seconds = total
+								done = true
+							}
+						} else if c.r.Status == "sat" && base == nil {
+							// a satisfiable case refutes the obligation too; wait for base for the model
+						}
+					}
+					if !done {
+						if base != nil {
+							res = *base
+						} else {
+							res = solve.Result{Status: "timeout"}
+						}
+					}
+				} else {
+					res = solve.Run(fname, to, "")
+				}
 				mu.Lock()
 				oo.Status = res.Status
 				oo.Backend = res.Solver
